@@ -243,6 +243,18 @@ def gen_case(rng):
         defined_phase_tags=rng.choice([None, ["PS"], ["HP"], ["PS", "HP", "PQ"]]),
         n_records=rng.randint(1, 25),
     )
+    if rng.random() < 0.08 and doc.records:
+        # a site with 17 ALT alleles and a call using allele 16 / 17, or a call of ploidy 15: fine for VCF and htslib
+        base = rng.choice(doc.records)
+        alts = ["A" + "".join(rng.choice("ACGT") for _ in range(3)) + "%s" % "ACGT"[k % 4] * (k // 4 + 1) for k in range(17)]
+        calls = []
+        for _ in doc.samples:
+            if rng.random() < 0.5:
+                calls.append({"GT": rng.choice(["0/17", "16|3", "17/17", "2|16"])})
+            else:
+                calls.append({"GT": rng.choice(["/", "|"]).join(str(rng.randint(0, 2)) for _ in range(15))})
+        doc.records.append({"chrom": base["chrom"], "pos": base["pos"] + 1000000, "id": ".", "ref": "A", "alts": alts, "qual": ".", "filter": ".", "info": ".",
+                            "fmt": ["GT"], "calls": calls, "kind": "many-alleles"})
     r = rng.random()
     if r < 0.15:
         # ##contig lines are optional in VCF: none declared, or only the first one
